@@ -30,6 +30,7 @@ class RefUnknown(Exception):
 
 class Refs:
     follow_holes = False
+    holes_neutral = False
 
     def __init__(self, ex, concretize=None):
         self.ex = ex
@@ -56,6 +57,9 @@ class Refs:
                 if isinstance(content, Union) or isinstance(cell, Union):
                     raise InternalError("merged hole cell in a reference")
                 if content.variant != "Some":
+                    if self.holes_neutral:
+                        out.append((g, ct, adt))
+                        continue
                     raise RefUnknown("unresolved hole")
                 _, inner = self.shift(content.fields[0], 0, shift)
                 for g2, c2, a2 in self.views(inner):
@@ -99,7 +103,13 @@ class Refs:
                 d3, t3 = self.shift(f[1], c + n, a)
                 d, r = z_and(*(dd + [d3])), T.let(ds, t3, sr)
             elif ct == "Unifier":
-                raise InternalError("reference shift is defined on hole-free terms")
+                if not self.holes_neutral:
+                    raise InternalError("reference shift is defined on hole-free terms")
+                # an unsolved hole with shift s stands for a term of the scope s levels up: it has no
+                # free variable below s, so it moves like a variable of index s
+                hs = f[1]
+                d = z_or(hs < c, hs + a >= c)
+                r = T.unifier(f[0], z_ite(hs >= c, hs + a, hs), sr)
             elif ARITY[ct] == 0:
                 d, r = True, t
             else:
@@ -136,7 +146,9 @@ class Refs:
                 ms.append(self.fv_member(f[1], c + n, k))
                 m = z_or(*ms)
             elif ct == "Unifier":
-                raise InternalError("reference fv is defined on hole-free terms")
+                if not self.holes_neutral:
+                    raise InternalError("reference fv is defined on hole-free terms")
+                m = False
             elif ARITY[ct] == 0:
                 m = False
             else:
@@ -169,7 +181,9 @@ class Refs:
                     sub += self.fv_occurrences(an, c + n) + self.fv_occurrences(de, c + n)
                 sub += self.fv_occurrences(f[1], c + n)
             elif ct == "Unifier":
-                raise InternalError("reference fv is defined on hole-free terms")
+                if not self.holes_neutral:
+                    raise InternalError("reference fv is defined on hole-free terms")
+                sub = []
             elif ARITY[ct] == 0:
                 sub = []
             else:
@@ -206,7 +220,7 @@ class Refs:
                 ds = [(nm, self.subst(an, x + n, u, s + n), self.subst(de, x + n, u, s + n)) for (nm, an, de) in f[0]]
                 r = T.let(ds, self.subst(f[1], x + n, u, s + n), sr)
             elif ct == "Unifier":
-                raise InternalError("reference substitution is defined on hole-free terms")
+                raise RefUnknown("substitution into an unresolved hole")
             elif ARITY[ct] == 0:
                 r = t
             else:
